@@ -5,6 +5,7 @@ import StathamModel.Parse
 import StathamModel.Good
 import StathamModel.SerJson
 import StathamModel.Tie
+import StathamModel.Lemmas.ParseNF
 namespace Statham.C07
 open Statham
 
@@ -78,9 +79,68 @@ theorem C07_partial_default (cx : PCtx) (k : SKw) (kids : Kids)
   · simp only [hc]
     exact base_default cx k _ _ hwf
 
-/-! ### counter-witnesses -/
-
 def cx0 : PCtx := { ci := { isalnum := isAsciiAlnum, uname := fun _ => "unknown" } }
+
+/-! ### the serialization side, on the schema-level model of `serialize_json` (`toSchema`, tied to the real serializer by the
+     driver op `to_schema`) -/
+
+/-- the `default` / `description` members of a serialized document's root -/
+def schemaDefault : Schema → Option JVal
+  | .bool _ => none
+  | .mk k .. => k.default
+def schemaDescription : Schema → Option String
+  | .bool _ => none
+  | .mk k .. => k.description
+
+/-- **Proved.** The JSON serialization of any element other than `Nothing()` carries exactly the element's default and
+    description — whatever the class, the keywords, the value (falsy ones included). -/
+theorem C07_json_default (e : Elem) (hc : e.cls ≠ .nothing) :
+    schemaDefault (toSchema e) = e.kw.default ∧ schemaDescription (toSchema e) = e.kw.description := by
+  cases e with
+  | mk c kw items addI cont props pats addP pn deps els =>
+    have hc' : c ≠ .nothing := hc
+    rw [toSchema_mk hc']
+    exact ⟨rfl, rfl⟩
+
+/-- **Proved: parse then serialize.** A schema object that declares a default (or has no composition keyword) and does not
+    reduce to `Nothing()` serializes with exactly that default at its root. -/
+theorem C07_default_parse_serialize (cx : PCtx) (k : SKw) (kids : Kids)
+    (hwf : match k.type with
+      | .none => True
+      | .single t => t ∈ knownTypes
+      | .list ts => ∀ t ∈ ts, t ∈ knownTypes)
+    (h : hasComposition k kids.not = false ∨ k.default.isSome = true)
+    (hn : (assembleK cx k kids).cls ≠ .nothing) :
+    schemaDefault (toSchema (assembleK cx k kids)) = declared k := by
+  rw [(C07_json_default _ hn).1]
+  exact C07_partial_default cx k kids hwf h
+
+/-- **Proved: every later round trip keeps every default and description at every depth** — for schemas meeting the
+    decidable source condition `nfGood`, the re-parsed tree is the *same tree* (C06_round_trip), so nothing is dropped, moved
+    or shared. -/
+theorem C07_round_trips_keep_everything (cx : PCtx) (s : Schema) (h : nfGood cx s = true) :
+    parseE cx (toSchema (parseE cx s)) = parseE cx s ∧
+    schemaDefault (toSchema (parseE cx (toSchema (parseE cx s)))) = schemaDefault (toSchema (parseE cx s)) := by
+  have := parse_toSchema cx _ (parse_NF cx s h)
+  exact ⟨this, by rw [this]⟩
+
+/-- **Proved: the description of an object schema is the description of its class** (no composition keyword beside it; with
+    one, the description stays on the class too, since `description` is a class argument and not split off — see
+    `description_beside_composition`). -/
+theorem C07_description_class (cx : PCtx) (k : SKw) (p : Parts) (d : Option JVal) :
+    (mkTyped cx "object" k p d).kw.description = k.description := by
+  unfold mkTyped
+  simp only [beq_self_eq_true, if_true]
+  rw [mkObject_objKw]
+  rfl
+
+theorem description_beside_composition :
+    (match (parseE cx0 (.mk { type := .single "object", title := some "A", description := some "text", hasAnyOf := true } [] none none [] []
+        none none [] [Schema.leaf { required := some ["a"] }, Schema.leaf { required := some ["b"] }] [] [] none)) with
+     | .mk .allOf _ _ _ _ _ _ _ _ _ (cls :: _) => cls.kw.description == some "text"
+     | _ => false) = true := by decide +kernel
+
+/-! ### counter-witnesses -/
 
 /-- finding C01-migrated-default seen from C07: without a declared default, a composition that collapses to
     a single branch hands that branch's default to the enclosing schema — a default "moved to another element" -/
